@@ -148,6 +148,8 @@ func (se *SpecEnv) resolveType(s string) (types.Type, string) {
 		return nil, "Iface"
 	case "Slice":
 		return nil, "Slice"
+	case "Func":
+		return nil, "Func"
 	case "error":
 		return types.Universe.Lookup("error").Type(), "Iface"
 	}
@@ -604,6 +606,9 @@ func (se *SpecEnv) findGhost(b T, f string) (*GhostField, string) {
 		return nil, ""
 	}
 	cands := []string{types.TypeString(b.Ty, nil)}
+	if b.So == "Str" {
+		cands = append(cands, "string")
+	}
 	if p, ok := b.Ty.(*types.Pointer); ok {
 		cands = append(cands, types.TypeString(p.Elem(), nil))
 	}
@@ -810,6 +815,22 @@ func (se *SpecEnv) evalLoc(e Expr) []Loc {
 			se.inOld = true
 			defer func() { se.inOld = saved }()
 			return se.evalLoc(cl.Args[0])
+		case "ghostall":
+			// ghostall("Owner.field"): the mutable ghost field of every owner
+			name := cl.Args[0].(*EStr).V
+			g, ok := se.c.eng.db.Ghosts[name]
+			if !ok {
+				se.fail("unknown ghost field %q", name)
+			}
+			os := "Iface"
+			if strings.HasPrefix(name, "string.") {
+				os = "Str"
+			}
+			mk := "G:" + name
+			_, so := se.resolveTypeIn(g.Pkg, g.Sort)
+			se.c.memSorts[mk] = "(Array " + os + " " + so + ")"
+			se.c.eng.ghostOwnerSort[mk] = os
+			return []Loc{{Kind: "ghost", Key: mk, Idx: "*", OwnerSort: os, Text: e.String()}}
 		}
 	}
 	// ghost field
